@@ -11,15 +11,42 @@ def P(streams, tb=None, assumptions=None, partial="", extra=None):
     return {"streams": streams, "trusted_base": TB_COMMON + (tb or []),
             "assumptions": assumptions or [], "partial": partial, "extra": extra or []}
 
+QUAD_TB = ["BTreeSet<ApproxInterval> modelled as a sorted list under the same comparator (Cav/Model/Quad.lean setInsert/setRemove)",
+           "T1 translator translate/tables.py (regex on the two const tables; literals -> exact dyadic rationals via python float/Fraction)"]
+QUAD_AS = ["integrands are deterministic functions of their argument (the model replays the logged x -> f(x) table)"]
+PARSE_TB = ["nom 7.1.3 combinators (tag, alpha1, digit1, fold_many0, verify, alt, double, i32) re-implemented in Cav/Model/Parse.lean from their sources; Rust str::parse::<f64> trusted to be correctly rounded (the model carries m*10^e and converts with its own exact rounding)",
+            "T4/T5 translators translate/context.py, translate/shape.py (narrow regex facts; a fact not found becomes '?' and shape_ok fails)",
+            "HashMap<String, ContextElement> modelled as an association list with overwrite-on-insert"]
+
 PROPS = {
+    "C01": P(["quad1d"], tb=QUAD_TB, assumptions=QUAD_AS,
+             partial="success clause ('a few hundred subdivisions suffice') and the transcendental class are explored, not proved; rounding explored"),
+    "C02": P(["quad1d"], tb=QUAD_TB, assumptions=QUAD_AS,
+             partial="the tiling theorem is over Rat; at Float a panel one ulp wide bisects onto itself and is dropped (loss <= 1 ulp*|f|), reproduced by the Float model and bounded by the oracle"),
+    "C06": P(["parse", "eval"], tb=PARSE_TB, assumptions=["user-registered names are ASCII words without a case-insensitive nan/inf prefix (CtxOK); see DESIGN C06"],
+             partial=""),
     "C10": P(["quad1d"],
-             tb=["BTreeSet<ApproxInterval> modelled as a sorted list under the same comparator (Cav/Model/Quad.lean setInsert/setRemove)"],
-             assumptions=["integrands are deterministic functions of their argument (the model replays the logged x -> f(x) table)"],
+             tb=QUAD_TB, assumptions=QUAD_AS,
              partial="non-negativity of the estimate and 'NaN sample never ok' are arithmetic facts: proved in exact arithmetic / under NaN-absorption laws, explored at Float"),
 }
 
 # what each claimed check says about itself in MANIFEST.json
 LEVEL_TEXT = {
+    "C01": {
+        "text": "Kernel-checked (decide +kernel) facts about the rule tables as they stand in the source, regenerated every run: K21 integrates x^k exactly to 1e-16 for k<=31, G10 for k<=19, not for 20 resp. 32; nodes embedded, weights positive. With the C02 tiling theorem this gives accuracy of every successful run on polynomials of degree <=31 in exact arithmetic (Thm/C01 accuracy theorems when present). Bit-exact correspondence of the Float model with the implementation; closed-form/Gauss-Legendre reference oracle for the smooth class incl. success and swap clauses.",
+        "note": "Trusts: Lean kernel (GMP arithmetic in decide +kernel), translator T1, harness. Rounding and the success clause are explored only.",
+        "technique": "Lean 4 kernel computation on regenerated tables + induction (tiling) + bit-exact differential correspondence",
+    },
+    "C02": {
+        "text": "Theorem gk1d_ok_is_tiling_sum (Rat, every integrand f : Q -> Q, all bounds/tolerances/budgets incl. none): a successful result is the sum of K21 panel estimates over a directed chain tiling [a,b], the estimate is the sum of |G10-K21|, every panel occurs in the evaluation trace; chain_additive / chain_length_sum (no gap, overlap, repetition); 31 abscissae per panel; table exactness theorems of C01. The model's abscissa sequence is compared bit-for-bit with the sequence the real integrand callback receives.",
+        "note": "Trusts: Lean kernel, sorted-list model of BTreeSet, translator T1, harness. Exact-arithmetic theorem; rounding clause explored by the trace-reconstruction oracle.",
+        "technique": "Lean 4 invariant proof by induction on the iteration budget + callback-trace correspondence",
+    },
+    "C06": {
+        "text": "Tie theorems (by decide on regenerated data): the operator tags, or_else order, allow_neg arguments, '^ before **', negation-last, left folds, bracket flags and residue checks of parsing.rs are those of the model; both default contexts bind every name n to AD::n / f64::n. parse_print (when present in Thm/C06Print): every string of the grammar Spec/Grammar.lean compiles to the tree it denotes. Model vs implementation: the actual tree is read back through compile_expression::<I,Sym> and compared on grammar-directed renderings, exhaustive token strings, mutations, Unicode; numeric eval at f64 and AD compared bit-for-bit with the model and with a reference evaluator of the conventional tree.",
+        "note": "Trusts: Lean kernel, translators T4/T5, nom re-implementation, harness. Structural property: no floating point involved in the tree; evaluation compares bits.",
+        "technique": "Lean 4 proof over an executable parser model + symbolic-tree differential correspondence",
+    },
     "C10": {
         "text": "Kernel-checked theorems, valid for every Num instance (so also for the Float instance the driver executes): success is returned only behind the !NaN and e < tol tests (1-D, 2-D, triangle), coincident bounds give (0,0) without sampling, zero budget gives the convergence error, at most 1+2n panels (31 abscissae each) are evaluated for budget n. The model is tied to the code by bit-exact correspondence on seeded integrand traces; NaN-sample and sign-of-estimate clauses are decided by oracles on the implementation.",
         "note": "Trusts: Lean kernel; sorted-list model of BTreeSet; harness. Floating-point rounding is modelled, not verified. 'e >= 0' and 'NaN sample never ok' are not structural; explored on the implementation (see evidence.partial).",
